@@ -15,7 +15,7 @@
 (* actual state.  A trace is a behaviour of the specification iff no       *)
 (* clause fails.                                                           *)
 (***************************************************************************)
-EXTENDS HgSem, HgParse, Json, IOUtils, TLCExt
+EXTENDS HgSem, HgParse, HgViews, Json, IOUtils, TLCExt
 
 Input == JsonDeserialize(IOEnv.TRACE_FILE)
 Traces == Input.traces
@@ -148,7 +148,10 @@ Expect ==
     [] op = "Copy" -> LET a == pool[Ev.a] IN X(Ev.t, FALSE, a.c, a.d, a.mut, TRUE, "det")
     [] op = "Pickle" -> LET a == pool[Ev.a] IN X(Ev.t, FALSE, a.c, a.d, a.mut, TRUE, "det")
     [] op \in {"Reload", "Immutable"} -> LET a == pool[Ev.a] IN X(Ev.t, FALSE, a.c, a.d, FALSE, TRUE, "det")
-    [] op \in {"Eq", "Read", "Doc"} -> X(0, FALSE, Absent.c, DummyD, FALSE, FALSE, "pure")
+    [] op \in {"Eq", "Read", "Doc", "CatView", "Grid2D"} -> X(0, FALSE, Absent.c, DummyD, FALSE, FALSE, "pure")
+    [] op = "View" ->
+         [X(0, FALSE, Absent.c, DummyD, FALSE, FALSE, "pure")
+            EXCEPT !.may = ~ViewDefined(pool[Ev.a].c, Ev.hasLo, Ev.qlo, Ev.hasHi, Ev.qhi)]
     [] op = "FromDoc" ->
          (* loading a document: must raise iff the document is invalid; unspecified documents may do either *)
          LET st == Parse(Ev.doc).st IN
@@ -215,6 +218,9 @@ Clauses(E) ==
                       [] Ev.op = "Reload" -> Ev.strict /\ Ev.fixpoint
                       [] Ev.op = "Increment" -> Ev.same
                       [] Ev.op = "Eq" -> EqFlags(E)
+                      [] Ev.op = "View" -> ViewOK(pool[Ev.a].c, Ev.hasLo, Ev.qlo, Ev.hasHi, Ev.qhi, Ev.xs, Ev.res)
+                      [] Ev.op = "CatView" -> CatViewOK(pool[Ev.a].c, Ev.res)
+                      [] Ev.op = "Grid2D" -> Grid2DOK(pool[Ev.a].c, Ev.res)
                       [] Ev.op = "Doc" -> /\ Strict(Ev.doc)
                                           /\ DocEq(Ev.doc, ToDoc(pool[Ev.a].c, pool[Ev.a].d))
                       [] Ev.op = "FromDoc" ->
